@@ -26,11 +26,12 @@ import ast
 import itertools
 
 from ..interp import (Interp, Hooks, Opaque, Str, Slot, Tup, Const, Cmp, IsNone, Truthy, In, NotC,
-                      Pred, State, ObjRef, Effect, Bound, FuncRef, ExtRef, NONE, TRUE, FALSE,
+                      AndC, OrC, Pred, State, ObjRef, Effect, Bound, FuncRef, ExtRef, NONE, TRUE, FALSE,
                       fold_cond, type_of)
 from ..ebb3 import most_derived, Engine
 from ..poly import Sym
 from ..model import AnalysisError
+from ..loops import UnrollMixin
 
 NAME_LIT = 'EiBotBoard'
 ID_LIT = 'USB VID:PID=04D8:FD92'
@@ -88,7 +89,16 @@ def needle_of(v):
     return None
 
 
-class PortOracle(Hooks):
+PENDING = []      # (instance, condition) of cases the oracles could not decide
+
+
+class PortOracle(UnrollMixin, Hooks):
+    unroll = True
+    fork_undecided = True
+
+    def loop(self, interp, node, st):
+        return self.unroll_loop(interp, node, st)
+
     """classes[k] = set of criteria that hold for port k."""
 
     def __init__(self, ports, classes):
@@ -96,6 +106,7 @@ class PortOracle(Hooks):
         self.classes = classes
         self.problems = []
         self.literal_sites = []
+        self.undecided = []
 
     def problem(self, msg):
         if msg not in self.problems:
@@ -107,6 +118,15 @@ class PortOracle(Hooks):
         return None
 
     def decide(self, cond, st):
+        r = self._decide(cond, st)
+        if r is None and not isinstance(cond, (AndC, OrC, NotC, Const)) and \
+                fold_cond(cond) is None and not self.problems:
+            # a condition about the ports that the oracle has no answer for: both outcomes are
+            # explored, so a mismatch in this case is not a verdict
+            self.undecided.append(cond)
+        return r
+
+    def _decide(self, cond, st):
         if isinstance(cond, Pred) and cond.name == 'startswith' and len(cond.args) == 2:
             hay, needle = cond.args
             f = field_of(hay)
@@ -144,6 +164,12 @@ class PortOracle(Hooks):
                 if idx == 0 and offset == 0:
                     return 'P4' in self.classes[k]
                 self.problem('name prefix test on field %d at offset %d' % (idx, offset))
+            return None
+        if isinstance(cond, In) and isinstance(cond.item, Str) and cond.item.is_lit() and \
+                cond.item.text() in (NAME_LIT, ID_LIT) and field_of(cond.container) is not None:
+            self.problem('the identity literal %r is tested as a substring of field %d; the '
+                         'identity tests are prefix tests' % (cond.item.text(),
+                                                              field_of(cond.container)[1]))
             return None
         if isinstance(cond, In):
             nd = needle_of(cond.item)
@@ -218,6 +244,9 @@ def check_first(ck, prog, fn, result_of, label, max_n=3):
             ck.ob('C19-D2-identity-literals', inst, False, '%s: %s' % (fn.qualname, '; '.join(hk.problems)),
                   fn.loc(), key=fn.qualname + '::literals')
             continue
+        if hk.undecided and got != {repr(want)} and repr(want) in got:
+            PENDING.append((inst, hk.undecided[0]))
+            continue
         ck.ob('C19-D1-first-board', inst, got == {repr(want)},
               '%s on a port list with classes %s (N = description starts with the product name, '
               'V = hardware id starts with the EBB VID:PID) yields %s; expected %s: first name '
@@ -242,6 +271,9 @@ def check_listing(ck, prog, fn, max_n=3):
         if hk.problems:
             ck.ob('C19-D2-identity-literals', inst, False, '%s: %s' % (fn.qualname, '; '.join(hk.problems)),
                   fn.loc(), key=fn.qualname + '::literals')
+            continue
+        if hk.undecided and got != {repr(want)} and repr(want) in got:
+            PENDING.append((inst, hk.undecided[0]))
             continue
         ck.ob('C19-D3-listing', inst, got == {repr(want)},
               '%s on a port list with classes %s returns %s; expected exactly the entries that '
@@ -285,6 +317,9 @@ def check_lookup(ck, prog, fn, legacy, max_n=2):
                   '%s: %s' % (fn.qualname, '; '.join(hk.problems)), fn.loc(),
                   key=fn.qualname + '::criteria')
             continue
+        if hk.undecided and got != {repr(want)} and repr(want) in got:
+            PENDING.append((inst, hk.undecided[0]))
+            continue
         ck.ob('C19-D4-lookup', inst, got == {repr(want)},
               '%s with ports meeting the criteria %s (P1 SER= tag, P2 (name) in description, P3 '
               'description[11:] starts with name, P4 device starts with name, P5 SNR= tag) returns '
@@ -298,13 +333,20 @@ def check_lookup(ck, prog, fn, legacy, max_n=2):
 
 
 # ---------------------------------------------------------------------------- D5
-class NamedOracle(Hooks):
+class NamedOracle(UnrollMixin, Hooks):
+    unroll = True
+    fork_undecided = True
+
+    def loop(self, interp, node, st):
+        return self.unroll_loop(interp, node, st)
+
     """list_named_ebbs on a list holding one abstract board of a given naming class."""
 
     def __init__(self, lister_quals, case):
         self.lister_quals = lister_quals
         self.case = case
         self.finds = []
+        self.undecided = []
 
     def call(self, interp, target, args, kwargs, st, node):
         if isinstance(target, FuncRef) and target.qual in self.lister_quals:
@@ -312,6 +354,12 @@ class NamedOracle(Hooks):
         return None
 
     def decide(self, cond, st):
+        r = self._decide(cond, st)
+        if r is None and not isinstance(cond, (AndC, OrC, NotC, Const)) and fold_cond(cond) is None:
+            self.undecided.append(cond)
+        return r
+
+    def _decide(self, cond, st):
         c = self.case
         if isinstance(cond, Pred) and cond.name == 'startswith':
             f = field_of(cond.args[0])
@@ -373,6 +421,9 @@ def check_reported_names(ck, prog, fn, lister_quals, legacy):
                 vals.add(o.value.items[0])
             else:
                 vals.add(None)
+        if (len(vals) != 1 or None in vals) and hk.undecided:
+            PENDING.append((inst, hk.undecided[0]))
+            continue
         if len(vals) != 1 or None in vals:
             ck.ob('C19-D5-reported-name', inst, False,
                   '%s does not report exactly one name for a single %s board' % (fn.qualname, case),
@@ -414,6 +465,7 @@ def run(ck, prog, tier):
     ck.assumptions = ['what descriptor strings each OS produces; substring collisions between '
                       'different boards (the statement excludes them: "whenever no earlier port '
                       'also matches")']
+    del PENDING[:]
     base, cls, family = most_derived(prog)
     f_first_l = prog.func('ebb_serial.findPort')
     f_first_e = prog.func('ebb3_serial.EBB3.find_first')
@@ -436,4 +488,7 @@ def run(ck, prog, tier):
                             'ebb3_serial.find_named'], 'C19-R-fresh-enumeration',
                  note='discovery must answer from the ports enumerated by this call')
     ck.sample({'identity_literal_sites': sorted(s1 | s2)})
+    if PENDING and not ck.violations:
+        raise AnalysisError('%d abstract port lists were not decided: the oracle has no answer for '
+                            '%r (%s)' % (len(PENDING), PENDING[0][1], PENDING[0][0]))
     ck.exhaustive = True
